@@ -79,6 +79,9 @@ def scripts(rng, tier):
             ls.append('unref %d' % j)
         ls.append('end')
         out.append(('sizes:%d' % k, ls))
+    # more references than any narrow counter holds (2^16 + a few): the block must survive until the very last one goes
+    k = 66000 if tier == 'quick' else 300000
+    out.append(('manyrefs', ['new 24 1 -', 'new 40 1 0'] + ['ref 1'] * k + ['unref 1'] * k + ['size 1', 'unref 1', 'end']))
     n = 400 if tier == 'quick' else 8000
     big = [0, 1, 7, 8, 9, 15, 16, 17, 23, 24, 25, 31, 32, 33, 40, 63, 64, 100, 255, 256, 1000, 4095, 4096, 8192]
     for i in range(n):
